@@ -30,7 +30,7 @@ SEG_CHARS = list("abcXYZ019-_.~") + list("!*'();:@&=+$,?#[]%") + [' ', 'é', 'ж
 
 def budget(tier):
     if tier == 'quick':
-        return {'shards': 16, 'examples': 90, 'wall': 240}
+        return {'shards': 16, 'examples': 250, 'wall': 240}
     return {'shards': 16, 'examples': 6000, 'wall': 2400}
 
 
@@ -62,6 +62,9 @@ def cases(draw):
     host = draw(st.sampled_from(['s3.example.com', 'minio.local:9000', '127.0.0.1:9000', '10.0.0.5', 'storage.googleapis.com',
                                  'a-b.c-d.example.org:8443']))
     scheme = draw(st.sampled_from(['https', 'http']))
+    if draw(st.integers(0, 7)) == 0:
+        # spellings an HTTP client normalises before sending: upper-case letters, an explicitly written default port
+        host = draw(st.sampled_from(['S3.Example.COM', 'Minio.Local:9000', 's3.example.com:443' if scheme == 'https' else 's3.example.com:80']))
     base = draw(st.sampled_from([1369353600, 1709251199, 1735689599, 1704067199, 951868799, 1900000000]))
     base += draw(st.sampled_from([0, -1, -2, 1, 3600 * 5 + 7]))
     names = draw(st.lists(name(), min_size=1, max_size=4))
@@ -197,6 +200,12 @@ def run_case(case):
         classes.append('crosses-utc-midnight')
     secrets = {case['key_id']: case['access_key']}
     want_host = f's3.{case["region"]}.amazonaws.com' if case['adapter'] == 's3' else case['host']
+    import httpx
+    if case['adapter'] != 's3':
+        # the authority as a client puts it on the wire (lower case, default port omitted)
+        want_host = httpx.URL(f'{case["scheme"]}://{case["host"]}').netloc.decode('ascii')
+        if want_host != case['host']:
+            classes.append('host-spelling-normalised-on-the-wire')
     for cap in fake.requests:
         probs = sigv4.verify(cap.method, cap.raw_path, cap.headers, cap.body, secrets, cap.body_complete)
         if cap.host != want_host:
